@@ -47,6 +47,9 @@ OPS = {
     "rst-default-role": ("```{eval-rst}\n.. default-role:: math\n\n`x`\n```\n\n{math}`y`\n", {}),
     "rst-plain-role": ("```{eval-rst}\n`x`\n```\n", {}),
     "inv-many": ("".join(f"[](inv:#n{i}*)\n" for i in range(0, 262, 1)) + "\n[](inv:#abc) [](inv:#ABC) [](inv:#a*)\n", {}),
+    # two patterns that differ only in a wildcard after an escaped star (autolinks: no Markdown backslash processing)
+    "inv-star-literal": ("<inv:#st\\*>\n", {}),
+    "inv-star-then-wild": ("<inv:#st\\**>\n", {}),
     "inv-few": ("[](inv:#abc) [](inv:#ABC) [](inv:#AB*) [](inv:#ab*)\n", {}),
     "subst": ("---\nmyst:\n  substitutions:\n    a: '{{b}}'\n    b: '{{a}}'\n    c: '{{ 1/0 }}'\n    d: ok\n---\n{{a}} {{c}} {{d}}\n", {}),
     # a cycle whose expression also names an innocent key (used BEFORE the cycle: a guard that outlives the parse shows in the next one)
@@ -140,7 +143,7 @@ class HistorySystem(System):
         (self.dir / "inc.md").write_text("# Inc\n\npara [^f]\n\n[^f]: foot\n\n![i](img.png)\n")
         (self.dir / "inc.rst").write_text("para\n")
         (self.dir / "uni.md").write_bytes("caf\u00e9 \u00fcber\n".encode("utf8"))
-        ents = "\n".join(f"n{i} py:function 1 p.html#$ -" for i in range(300)) + "\nabc std:label -1 i.html#abc Title\nABC std:label -1 i.html#ABC2 Other\n"
+        ents = "\n".join(f"n{i} py:function 1 p.html#$ -" for i in range(300)) + "\nabc std:label -1 i.html#abc Title\nABC std:label -1 i.html#ABC2 Other\nst* std:label -1 i.html#st1 Star\nst*rry std:label -1 i.html#st2 Starry\n"
         (self.dir / "o.inv").write_bytes(b"# Sphinx inventory version 2\n# Project: P\n# Version: 1\n# The remainder of this file is compressed using zlib.\n" + zlib.compress(ents.encode()))
         # baselines: each operation FIRST in its own fresh child of this (pristine) parent
         self.base = {op: in_child(docutils_run, self.dir, *OPS[op]) for op in self.ops}
